@@ -12,23 +12,23 @@ CHECKS = {
             "Decides structural clauses necessary for token preservation: every CST expression kind has a from_cst/rebuild "
             "pair; every token-bearing field of every renderer reaches the returned string on every path (only emptiness "
             "tests of the field itself may drop it); gap offsets index the bytes they were measured against; from_cst child "
-            "loops accept comments; presence tests on expression slots cannot be false for a present node; the comma marker is found by membership. It does not prove the token sequence equal for all inputs. Also: rendered text is assembled and never rewritten by pattern; token text is cut by position, not greedy strip. Also: scoped nodes render their let; names-only containers handle every child kind; byte offsets index bytes; parallel lists stay aligned; element kinds agree with the inline-suffix renderer.", "2/C01"),
+            "loops accept comments; presence tests on expression slots cannot be false for a present node; the comma marker is found by membership. It does not prove the token sequence equal for all inputs. Also: rendered text is assembled and never rewritten by pattern; token text is cut by position, not greedy strip. Also: scoped nodes render their let; names-only containers handle every child kind; byte offsets index bytes; parallel lists stay aligned; element kinds agree with the inline-suffix renderer. Also: the separator after an inline-comment suffix starts a new line unless the slot is known empty or the stored layout is on the same line.", "2/C01"),
     "C03": ("gap-coverage query over from_cst collectors + content-flow of comment slots + segment-order rule + reader/writer table agreement",
             "Decides: every inter-token gap of every production is covered by exactly one comment route that reaches the "
             "node; every comment slot is rendered on every path; trailing trivia follows the last token; comment prefix "
-            "tables agree; concatenations list trivia in source order; every let layer's trivia slots are consumed on every path. Does not decide relative order of comments routed to different slots. Also: a flag-guarded trivia consumer is not dead code; comments split by `inline` form a leading run. Also: inline attachment is latched; one-comment slots are not reassigned in a loop; comment windows are closed at their start anchor; tuples are unpacked in return order.", "2/C03"),
+            "tables agree; concatenations list trivia in source order; every let layer's trivia slots are consumed on every path. Does not decide relative order of comments routed to different slots. Also: a flag-guarded trivia consumer is not dead code; comments split by `inline` form a leading run. Also: inline attachment is latched; one-comment slots are not reassigned in a loop; comment windows are closed at their start anchor; tuples are unpacked in return order. Also: a line comment ends its line (separator after an inline-comment suffix); comment delimiters are cut by position.", "2/C03"),
     "C04": ("who-may-write effect analysis (write-set confinement) over the edit closure",
             "Decides that the only document state the set/rm closure may write is the addressed binding, its containers, "
             "their order mirrors and the scope wrappers; new bindings are appended, removal deletes the located object. "
-            "No memoised object is stored into a document; attrpath families are merged into one tree (decision tables of both mergers) and the by-name index designates only live bindings. Byte extents outside the target are the renderer's behaviour and are not decided here. Also: order entries matched by identity; lookup-or-create inserts into the container it searched. Also: position by index; the nested filter is part of the search; no loop-invariant test decides a per-element removal; aliases are followed in their definition-site chain.", "2/C04"),
+            "No memoised object is stored into a document; attrpath families are merged into one tree (decision tables of both mergers) and the by-name index designates only live bindings. Byte extents outside the target are the renderer's behaviour and are not decided here. Also: order entries matched by identity; lookup-or-create inserts into the container it searched. Also: position by index; the nested filter is part of the search; no loop-invariant test decides a per-element removal; aliases are followed in their definition-site chain. Also: one spelling of a bare attribute name.", "2/C04"),
     "C05": ("regex-AST query for bare names + sibling agreement of target resolvers + exception-escape analysis",
             "Decides: bare attribute names are full-matched against the Nix identifier alphabet and keywords are quoted; "
             "both target resolvers handle the same wrapper shapes; only KeyError/ValueError escape target resolution; "
-            "container and order-cache writes are paired on the edit paths; parentheses are stripped on every path to a class test; attrpath merge tables as in C04. Also: the callee head decides editability; a walk's result is used; a let layer is pruned only when empty. Also: creation sees inherit clauses (also inside helpers).", "2/C05"),
+            "container and order-cache writes are paired on the edit paths; parentheses are stripped on every path to a class test; attrpath merge tables as in C04. Also: the callee head decides editability; a walk's result is used; a let layer is pruned only when empty. Also: creation sees inherit clauses (also inside helpers). Also: the nested filter is part of the attrpath-root search; the NPath reader decodes the documented escapes.", "2/C05"),
     "C07": ("dominance (graph cut) on the error gate + dataflow of the raw text + resolver case tables",
             "Decides: the has_error gate dominates all structured parsing; the raw text is the complete parser input with "
             "no rewriting call in between and is returned unchanged; edits reject raw documents and raw values before any "
-            "use; the top-level expression reaches an edit only through the shape gate; `nima test` checks contains_error first. tree-sitter's has_error is trusted. Also: the error gate is reached for every input (no exit before it). Also: the value is validated as given; no parse entry point is memoised over a file read.", "2/C07"),
+            "use; the top-level expression reaches an edit only through the shape gate; `nima test` checks contains_error first. tree-sitter's has_error is trusted. Also: the error gate is reached for every input (no exit before it). Also: the value is validated as given; no parse entry point is memoised over a file read. Also: the CLI hands VALUE to set_value unmodified.", "2/C07"),
     "C08": ("interprocedural effect/ordering analysis (mutate-then-raise) + exception-escape sets",
             "Decides: no rejection point (raise or raising callee) is reachable after a document-state write in the edit "
             "closure (reviewed infeasible pairs listed by normalised statement); only KeyError/ValueError escape "
@@ -36,19 +36,19 @@ CHECKS = {
     "C09": ("orientation agreement of the five scope-layer sites + bounds-guard dominance + create/prune shape rules",
             "Decides: all producers/consumers of the layer list use the same outermost-first orientation; selector "
             "indexing is dominated by the depth guard with no intervening resize; one layer is created, exactly the "
-            "selected empty layer is pruned; a created let must sit where the grammar admits one; the depth is the leading run of `@`. Also: a walk's result is used (no lookup through the start object after the walk). Also: a layer is stored once; layers are told apart by position; every layer's trivia is consumed.", "2/C09"),
+            "selected empty layer is pruned; a created let must sit where the grammar admits one; the depth is the leading run of `@`. Also: a walk's result is used (no lookup through the start object after the walk). Also: a layer is stored once; layers are told apart by position; every layer's trivia is consumed. Also: a scoped selector edits the body only when no layer exists; scoped edits write the layer's own lists.", "2/C09"),
     "C10": ("must-pass-through on the registry, recursion-guard dominance, exit discipline and chain-orientation rules",
             "Decides: with-scopes must be distinguishable and ranked last; registry hits are identity-validated; every "
             "recursive resolution carries a visited set or a strictly shorter chain; all exits are a binding or "
-            "ResolutionError; chain producers are outer-to-inner and the scan is reversed with the found index slice; inherit sources and with environments are looked up in the prescribed chain. Also: a value stored by item assignment loses its foreign chain; continuations run in the scan iteration that found the binder. Also: only formals enter the parameter scope; chains are recomputed from the owner on every access; the setter installs a copy.", "2/C10"),
+            "ResolutionError; chain producers are outer-to-inner and the scan is reversed with the found index slice; inherit sources and with environments are looked up in the prescribed chain. Also: a value stored by item assignment loses its foreign chain; continuations run in the scan iteration that found the binder. Also: only formals enter the parameter scope; chains are recomputed from the owner on every access; the setter installs a copy. Also: stored let layers keep their order through every producer; the inherit cycle marker does not depend on the scope chain.", "2/C10"),
     "C11": ("same-resolver rule for getter/setter + assign-through dominance over overwrites (sibling agreement)",
             "Decides: Identifier.value getter and setter resolve through the same function and the setter writes only the "
             "resolved binding's value; every overwrite of a located binding's value is dominated, when that value is a "
-            "reference, by the assign-through attempt and its fallbacks in the fixed order; an owner-relative attach never reuses a remembered chain. Also: resolved values are not re-stamped; every exit of an owner-relative attach has recomputed the chain.", "2/C11"),
+            "reference, by the assign-through attempt and its fallbacks in the fixed order; an owner-relative attach never reuses a remembered chain. Also: resolved values are not re-stamped; every exit of an owner-relative attach has recomputed the chain. Also: an inherited name is followed to the closer scope first.", "2/C11"),
     "C12": ("reader/writer escape-table agreement + regex-AST query + canonical-comparison rule on lookups",
             "Decides: every character special in a Nix string is escaped by the writer and decoded by the NPath reader; "
             "bare names are full-matched and keywords quoted; interpolation escaping is always requested; lookups compare "
-            "names produced by the same formatter (canonical-name defect recorded); quoted-state scanners agree with Nix's lexer row by row; a quoted segment is never written bare. Also: one bare-name alphabet; every name read from a file passes the splitter; lookups use the formatted spelling; `${` stays closed while an escape is pending.", "2/C12"),
+            "names produced by the same formatter (canonical-name defect recorded); quoted-state scanners agree with Nix's lexer row by row; a quoted segment is never written bare. Also: one bare-name alphabet; every name read from a file passes the splitter; lookups use the formatted spelling; `${` stays closed while an escape is pending. Also: every returned path segment passed the parser and the name formatter.", "2/C12"),
     "C13": ("test-order dominance (bool before int) + must-pass-through of escapers + float/negative-number format rules",
             "Decides: subclass tests precede superclass tests in coercion; non-raw strings pass the escaper on every path "
             "and raw_string is set only by parser code; coerced floats are formatted by a Nix-float formatter; tight "
@@ -56,7 +56,7 @@ CHECKS = {
     "C14": ("paired-update (post-dominance) rule for values/attrpath_order + sibling agreement on entry kinds + clean-raise rule",
             "Decides: every structural mutation of a binding container is followed on all paths by the mirror update of the "
             "matching order list; deletion sites handle both order-entry kinds; KeyError for a missing key is raised "
-            "before any write; key access only on known mappings (KeyError, not TypeError); updates mutate the located Binding in place. Also: the order accessor is total; binding containers reach the text on every path; a walk's result is used. Also: manual stacks are balanced; mirrors follow the binding list in every mutator; fallback handlers are reviewed.", "2/C14"),
+            "before any write; key access only on known mappings (KeyError, not TypeError); updates mutate the located Binding in place. Also: the order accessor is total; binding containers reach the text on every path; a walk's result is used. Also: manual stacks are balanced; mirrors follow the binding list in every mutator; fallback handlers are reviewed. Also: by-name positions are positions in the scope list itself; attrpath merge tables as in C04.", "2/C14"),
     "C15": ("effect analysis of the rebuild closure (no shared document write) + process-wide state inventory (who-may-write)",
             "Decides: no function reachable from any rebuild writes document state of a shared object; module-level mutable "
             "state is written only by its confined writers (thread-local parser, context variables reset in finally, "
@@ -64,15 +64,15 @@ CHECKS = {
     "C16": ("path conditions on main(): graph-cut dominance, dataflow of input/result, emission idiom classification",
             "Decides: OK/0 only on the path with contains_error false and input == rebuild(parse(input)); set/rm emit "
             "exactly the library result once, after it returned, with a conditional terminator, and return 0 only then; "
-            "one unmodified input channel wired to all three sub-commands. Also: Fail needs an error or a difference; positionals are not converted by argparse.", "2/C16"),
+            "one unmodified input channel wired to all three sub-commands. Also: Fail needs an error or a difference; positionals are not converted by argparse. Also: an exit status decided by a helper is judged together with what was written before it.", "2/C16"),
     "C17": ("dataflow chain parse_file -> context variable -> NixPath.source_path -> resolved_path -> _follow_import",
             "Decides each link of the import-resolution chain: the path read is the path installed as context, captured "
             "into the literal at parse time, joined to the importing file's parent, passed on to parse_file; TypeError / "
-            "ValueError guards dominate; nothing resolves names before the NixPath test; no OSError handler, no cwd API, no cache keyed on a relative path.", "2/C17"),
+            "ValueError guards dominate; nothing resolves names before the NixPath test; no OSError handler, no cwd API, no cache keyed on a relative path. Also: every parenthesis layer is removed before the path test.", "2/C17"),
     "C18": ("taint analysis (raw gap text / newline counts to string building) + inline/indent structural rules",
             "Decides: raw whitespace captured from gaps reaches the output only through classifiers; raw newline counts are "
             "clamped before they multiply separators; every rebuild lets `inline` decide the leading indent; sibling "
-            "comment renderers agree on indentation; own trivia are rendered at the node's own indent; a blank line in a comment gap is represented once. Also: a blank line at a delimiter is recorded once. Also: recorded fields are consulted; the splitter strips on every path; closers are not placed by a layout-derived separator.", "2/C18"),
+            "comment renderers agree on indentation; own trivia are rendered at the node's own indent; a blank line in a comment gap is represented once. Also: a blank line at a delimiter is recorded once. Also: recorded fields are consulted; the splitter strips on every path; closers are not placed by a layout-derived separator. Also: a fragment is padded to the indent it was rendered with; separator and child are laid out from the same layout value.", "2/C18"),
     "C20": ("render-count abstract interpretation (no child rendered twice per path) + raise-discipline query",
             "Decides: along any path of any rebuild closure each child expression is rendered at most once (a second "
             "rendering per level is exponential in nesting depth); explicit raises in parse/rebuild are ValueError family. "
